@@ -93,6 +93,12 @@ def jobs(tier, seed):
     sel = codes if tier == 'thorough' else C.sample(rng, codes, 24)
     for ch in C.chunks(sel, 8):
         out.append({'fn': 'iso_ctor', 'cfg': {'codes': ch, 'mode': modes[len(ch) % 8]}})
+    for i, m in enumerate(modes if tier == 'thorough' else modes[:4]):
+        out.append({'fn': 'converter_arith', 'cfg': {'mode': m}})
+        out.append({'fn': 'mode_switch', 'cfg': {'first': modes[(i + 3) % 8], 'second': m, 'kind': ['dv', 'cur', 'user'][i % 3],
+                                                'quantum': USER_QUANTA[i % 5], 'unit': i % 3 if i % 3 == 2 else ['kB', 'EUR', 1][i % 3]}})
+        out.append({'fn': 'alloc_grid', 'cfg': {'mode': m, 'kind': ['dv', 'user', 'cur'][i % 3], 'quantum': USER_QUANTA[(i + 3) % 5],
+                                               'unit': ['b', 2, 'JPY'][i % 3]}})
     out.append({'fn': 'rates', 'cfg': {'mode': 'ROUND_HALF_EVEN'}})
     out.append({'fn': 'rates', 'cfg': {'mode': 'ROUND_FLOOR'}})
     out.append({'fn': 'ops', 'cfg': {'kind': 'dv', 'unit': 'kB', 'other': 'b', 'mode': 'ROUND_HALF_EVEN',
@@ -231,7 +237,7 @@ def ops(E, cfg):
         r = round(qa, 1)
         E.check(r.unit is u and E.is_int(r.amount / qu), 'round-on-grid', key='round-on-grid')
         if cfg['kind'] != 'cur':
-            quant = cls(C.num('0.7'), v)
+            quant = cls(C.num(str(3 * qv)), v)          # a non-zero quantum on the grid of v
             r = qa.quantize(quant)
             E.check(r.unit is u and E.is_int(r.amount / qu), 'quantize-on-grid', key='quantize-on-grid')
         return
@@ -333,3 +339,63 @@ def rates(E, cfg):
         r3 = mt / rate
         qc = Fraction(1, 10 ** C.iso_table()[cu.symbol][1])
         _produced(E, r3, mt.amount * mult / Fraction(amt), qc, mode, 'money-div-rate', Money, cu, n0)
+
+
+def converter_arith(E, cfg):
+    """money of two currencies added / subtracted / compared through a registered converter: the result is
+    the exact value in the left currency rounded once"""
+    from decimalfp import Decimal
+    from quantity.money import Money, MoneyConverter
+    C.set_default_mode(cfg['mode'])
+    mode = C.mode(cfg['mode'])
+    eur, usd, jpy = (Money.register_currency(c) for c in ('EUR', 'USD', 'JPY'))
+    conv = MoneyConverter(eur)
+    conv.update(None, [(usd, Decimal('1.25'), 1), (jpy, Decimal('160'), 1)])
+    a = E.rational('a', 'dec')
+    b = E.rational('b', 'frac')
+    left, right, rate = E.choice('pair', [(eur, usd, Fraction(4, 5)), (usd, eur, Fraction(5, 4)), (eur, jpy, Fraction(1, 160)),
+                                          (jpy, eur, Fraction(160))])
+    ql = Fraction(1, 10 ** C.iso_table()[left.symbol][1])
+    with conv:
+        m1, m2 = Money(a, left), Money(b, right)
+        for label, fn, exact in (('conv-add', lambda: m1 + m2, m1.amount + m2.amount * rate),
+                                 ('conv-sub', lambda: m1 - m2, m1.amount - m2.amount * rate)):
+            n0 = _nr(E)
+            r = fn()
+            _produced(E, r, exact, ql, mode, label, Money, left, n0)
+        n0 = _nr(E)
+        r = m2.convert(left)
+        _produced(E, r, m2.amount * rate, ql, mode, 'conv-convert', Money, left, n0)
+    E.check(len(list(Money.registered_converters())) == 0, 'converter-unregistered')
+
+
+def mode_switch(E, cfg):
+    """the same amount constructed under two default modes in one process: each result follows the mode
+    that is active at its construction"""
+    cls, u, v, quantum_of = _units(E, dict(cfg, other=cfg['unit']))
+    qu = quantum_of(u)
+    a = E.rational('a', 'dec')
+    for mname in (cfg['first'], cfg['second'], cfg['first']):
+        C.set_default_mode(mname)
+        n0 = _nr(E)
+        q = cls(a, u)
+        _produced(E, q, a, qu, C.mode(mname), 'ctor-after-mode-switch', cls, u, n0)
+        n0 = _nr(E)
+        r = q * C.num('1/3')
+        _produced(E, r, q.amount / 3, qu, C.mode(mname), 'mul-after-mode-switch', cls, u, n0)
+
+
+def alloc_grid(E, cfg):
+    """portions of an allocation are instances like any other: on the grid of their unit"""
+    C.set_default_mode(cfg['mode'])
+    cls, u, v, quantum_of = _units(E, dict(cfg, other=cfg['unit']))
+    qu = quantum_of(u)
+    k = E.integer('k')
+    q = cls(k * C.num(str(qu)), u)
+    ratios = E.choice('ratios', [[1, 2], [1, 1], [3, 7]])      # n = 2: the amount-symbolic allocation with n = 3 takes minutes (C06)
+    for disperse in (True, False):
+        portions, rem = q.allocate(ratios, disperse)
+        for p in portions:
+            E.check(type(p) is cls and p.unit is u and E.is_int(p.amount / qu), 'allocated-portion-on-grid',
+                    key='alloc-portion-grid', info=[cfg, ratios, disperse])
+        E.check(E.is_int(rem.amount / qu), 'allocation-remainder-on-grid', key='alloc-remainder-grid', info=[cfg, ratios])
